@@ -207,6 +207,19 @@ CHECKS["C14"] = dict(engine="threads-to_thread", ref="4 (Engine THREADS, C14)",
          "return the right value or are cancelled with the host, and everything terminates (deadlock / busy loop detection). "
          "Exploration level.")
 
+CHECKS["C15"] = dict(engine="threads-portal", ref="4 (Engine THREADS, C15)",
+    technique="deterministic simulation of real threads: baton-passing scheduler over caller threads, the portal's loop thread "
+              "and the main thread, virtual-time loop; future cancellations, portal stops and context exits injected at seeded "
+              "scheduling points",
+    text="Real BlockingPortal / start_blocking_portal with real caller threads; the scheduler owns every interleaving (yield "
+         "points at loop iterations, call_soon_threadsafe, Future.result, thread start/join, loop.close) and reports 'all threads "
+         "parked' as a hung call. 1-4 caller threads x 1-5 operations (call, start_task_soon with immediate/late future.cancel, "
+         "start_task with started / failure / no started, wrap_async_context_manager, stop with/without cancel_remaining), portal "
+         "inline in anyio.run or in its own thread, main thread leaving early or with an exception. Oracles: every callable runs "
+         "in the loop thread exactly once (0 only if refused or cancelled before it started), value / exception / start value "
+         "identity, cancelling a future interrupts exactly that task, calls issued after stop() returned are refused, leaving the "
+         "context returns only when no portal task is running, nobody is left hanging. Exploration level.")
+
 NOT_YET = "check not built yet in this snapshot of /verif (work in progress; see DESIGN.md section 4 for the plan)"
 
 
@@ -231,7 +244,7 @@ def main():
     engines = {}
     for pid, c in CHECKS.items():
         engines.setdefault(c["engine"], []).append(pid)
-    paths = {"sync-permits": "engines/permits.py", "sc": "engines/sc.py", "sync-conditions": "engines/conds.py", "sync-checkpoints": "engines/checkpoints.py", "mem": "engines/mem.py", "sc-deadlines": "engines/deadlines.py", "func-itertools": "engines/func_iter.py", "func-lru": "engines/func_lru.py", "bytes-wrappers": "engines/bytes_buffered.py", "bytes-tls": "engines/bytes_tls.py", "bytes-sockets": "engines/bytes_sock.py", "threads-to_thread": "engines/threads_to.py"}
+    paths = {"sync-permits": "engines/permits.py", "sc": "engines/sc.py", "sync-conditions": "engines/conds.py", "sync-checkpoints": "engines/checkpoints.py", "mem": "engines/mem.py", "sc-deadlines": "engines/deadlines.py", "func-itertools": "engines/func_iter.py", "func-lru": "engines/func_lru.py", "bytes-wrappers": "engines/bytes_buffered.py", "bytes-tls": "engines/bytes_tls.py", "bytes-sockets": "engines/bytes_sock.py", "threads-to_thread": "engines/threads_to.py", "threads-portal": "engines/threads_portal.py"}
     try:
         hooks = [l.split()[0] for l in subprocess.run(
             ["git", "-C", "/repo", "log", "--format=%h %s", "--grep=^hook:"], capture_output=True, text=True
